@@ -29,8 +29,9 @@ RULES = {
     "R7": "combination filter: reference rows are the rows with no control column",
     "R8": "the derived screen attributes this property's code relies on (size, unique_sample_ids, n_unique_samples, unique_plate_ids) have their documented definitions in ScreenBase and every override",
     "R9": "the view algebra this property's code relies on: plates = one view per unique plate id, get_plate = the rows with that id, subset_(un)observed, combine / concat as unions over one parent (C14.R3 run here)",
+    "R10": "constructor options are live: every attribute the constructor binds from a parameter is read by a method of the class",
 }
-MIN = {"R1": 4, "R2": 3, "R3": 8, "R4": 6, "R5": 2, "R6": 4, "R7": 2, "R8": 4, "R9": 8}
+MIN = {"R1": 4, "R2": 3, "R3": 8, "R4": 6, "R5": 2, "R6": 4, "R7": 2, "R8": 4, "R9": 8, "R10": 1}
 TRUSTED = ["np.array_split(v, n) returns n pieces whose sizes differ by at most one and partition v", "heapq pops the minimum under __lt__",
            "lemma: ceil(L / ceil(L/m)) <= m for integers L >= 1, m >= 1"]
 TECHNIQUE = "must-pass-through on the CFG, def-use slices, relational normal forms of the size comparisons, id-scope typestate"
@@ -961,7 +962,11 @@ def r_views(ctx):
     ctx.borrow(C14.r3, "R9")
 
 
-RULE_FUNCS = [r1, r2, r3, r4, r5, r6, r7, r_derived, r_views]
+def r_options(ctx):
+    common.options_are_live(ctx, "R10", sorted(q for q in ctx.R.classes if q.startswith("batchie.retrospective.")), exempt=())
+
+
+RULE_FUNCS = [r1, r2, r3, r4, r5, r6, r7, r_derived, r_views, r_options]
 
 
 def run(ctx):
